@@ -646,14 +646,16 @@ def oracle_c06(case, obs, res):
     outstanding = 0
     for dev, ops in per.items():
         n_stage = sum(1 for _, op, _ in ops if op == "stage")
-        n_unstage = sum(1 for _, op, _ in ops if op == "unstage")
+        # an unstage call that raised (injected fault) is still an unstage attempt: the engine cannot do more
+        n_unstage = sum(1 for _, op, _ in ops if op in ("unstage", "unstage!raise"))
         if n_stage >= 1:
             outstanding += 1
             if n_unstage < n_stage:
                 res.fail("left_staged", f"{dev}: staged {n_stage}x but unstaged {n_unstage}x when the engine went idle", **F(device=dev))
             elif n_unstage > n_stage:
                 res.classes.append("over_unstaged")
-        sets = [seq for seq, op, _ in ops if op == "set"]
+        # a set() that raised may still have started a move: it counts as "was set"
+        sets = [seq for seq, op, _ in ops if op in ("set", "set!raise")]
         if sets:
             outstanding += 1
             stops = [seq for seq, op, _ in ops if op == "stop"]
